@@ -1,11 +1,11 @@
 (** C13 obligation over the REGENERATED class table (finite, exhaustive, kernel-evaluated): every concrete class satisfies the
     class condition of the theorem above (exported, unique attribute names, tags that survive case mapping, children named after
-    their class, repeated children adjacent and correctly placed in the sequence, ElementList shape) except MAIL / MFINFO /
-    STOCKINFO (groom-ungroom rename, probed on the real classes only) and TAX1099INT_V100 (recorded finding). *)
+    their class, repeated children adjacent and correctly placed in the sequence, ElementList shape) 
+    (the rename of MAIL / MFINFO / STOCKINFO included) except TAX1099INT_V100 (recorded finding). *)
 From OfxV Require Import Base.Prelude Model.Schema Model.SchemaWf Proofs.RoundTrip3 Proofs.RoundTrip6 Gen.SchemaGen Gen.SchemaS.
 Local Open Scope string_scope.
 Theorem class_conditions_generated :
-  map ci_name (filter (fun c => concrete c && negb (rt_class_okb c)) S) = ["MAIL"; "MFINFO"; "STOCKINFO"; "TAX1099INT_V100"]
+  map ci_name (filter (fun c => concrete c && negb (rt_class_okb c)) S) = ["TAX1099INT_V100"]
   /\ (forall c, rt_class_okb c = true -> rt_class_ok c (class_lb c) (class_ub c)).
 Proof. split; [vm_compute; reflexivity|exact rt_class_okb_sound_l]. Qed.
 Print Assumptions class_conditions_generated.
